@@ -130,4 +130,15 @@ def checkRx (wf : Nat) (chunks : List (List Byte)) (toks : List RxTok) : String 
         else if sz ≠ chunks.flatten.length then "fails size-is-octet-count"
         else "holds"
 
+/-- a connection with several transactions: `txs` = the chunk lists of exactly those transactions that
+are completed with LAST and must be queued (abandoned or failed ones hand nothing off). The hand-offs
+must be, in order, `crlfToLf` of each one's own chunks with its own octet count. -/
+def checkRxSeq (txs : List (List (List Byte))) (toks : List RxTok) : String :=
+  let envs := toks.filterMap fun | .env sz d => some (sz, d) | _ => none
+  if envs.length ≠ txs.length then "fails one-handoff-per-completed-transaction"
+  else if envs.map (·.2) ≠ txs.map (fun t => crlfToLf t.flatten) then
+    "fails queued-message-depends-only-on-own-chunks"
+  else if envs.map (·.1) ≠ txs.map (fun t => t.flatten.length) then "fails size-is-octet-count"
+  else "holds"
+
 end QsmtpModel.Spec.Bdat
